@@ -70,3 +70,7 @@ mod c04_index_names;
 /// harness natively, without stubs, against the real crates.
 #[cfg(all(kani, test))]
 mod playback;
+
+/// Native differential test of the Decimal model against the real library (`/verif/check --modelcheck`).
+#[cfg(all(kani, test, verif_native))]
+mod modelcheck;
